@@ -25,6 +25,14 @@ CONC_RULE = ("GENUINE Watchers (NewWatcher / NewBufferedWatcher, nothing replace
              "delete (pending error), kernel queue overflow}; every control call runs under an 8 s watchdog with goroutine "
              "dump; after Close both channels must be closed, the API inert, nothing received after the close")
 
+KQ_RULE = ("the REAL backend_kqueue.go + fsnotify.go + shared.go + system_bsd.go copied verbatim at check time (only the build-"
+           "tag line and three import paths rewritten) and compiled on Linux against kqsim stand-ins; sessions over "
+           "directories with files, a subdirectory, a symlink and (every 4th session) a FIFO; steps create / write / chmod / "
+           "truncate / remove / rename (also onto an existing name) / mkdir / rmdir / symlink / create-in-subdir, Add (also "
+           "with a trailing slash) and Remove of user paths, then Remove of everything and Close; after every step: expected "
+           "events by the C18 oracle (multiset), descriptor accounting (simulated registry and /proc/self/fd), WatchList = user "
+           "paths, and the Lean invariant KState.inv evaluated on a snapshot of the implementation's tables")
+
 PROPS = {
     "C15": {
         "lean": ["FsnVerif.Props.C15"],
@@ -149,6 +157,21 @@ PROPS = {
         "stages": [{"name": "conc", "cmd": "conc", "what": "C14"}],
         "rule": CONC_RULE + "; C14: 1-8 Watchers with buffers {0,1,2,4,64,4096,65536,3} on one directory, one sequential history, Add/Remove/WatchList/Close churn on the others: event sequences must be identical; cap(Events) read directly; absorb test per size",
         "assumptions": ["kernel isolation between inotify instances (measured)"],
+    },
+    "C17": {
+        "lean": ["FsnVerif.Props.C17"],
+        "lean_support": ["FsnVerif.Proofs.KqLemmas", "FsnVerif.Model.Kqueue"],
+        "stages": [{"name": "kq", "cmd": "scratch:kq", "what": "C17"}],
+        "rule": KQ_RULE,
+        "assumptions": ["the kqueue kernel interface is SIMULATED (kqsim/unix): EVFILT_VNODE knotes with EV_CLEAR coalescing, close-pipe EOF; "
+                        "NOTE_* raised on the vnodes FreeBSD would; not validated against a real BSD/macOS kernel (none available)"],
+    },
+    "C18": {
+        "lean": ["FsnVerif.Props.C18"],
+        "lean_support": ["FsnVerif.Model.Kqueue"],
+        "stages": [{"name": "kq", "cmd": "scratch:kq", "what": "C18"}],
+        "rule": KQ_RULE,
+        "assumptions": ["as C17; event order within one kevent batch follows descriptor order in the simulation: events of one step are compared as multisets"],
     },
     "C19": {
         "lean": ["FsnVerif.Props.C19"],
@@ -310,6 +333,24 @@ def build_scratch(kind, sd, repo, verif, goenv, run):
         shutil.copy(os.path.join(t, "main.go.txt"), os.path.join(sd, "main.go"))
         shutil.copy(os.path.join(t, "ztest", "export.go.txt"), os.path.join(sd, "ztest", "export.go"))
         shutil.copy(os.path.join(repo, "internal", "ztest", "diff.go"), os.path.join(sd, "ztest", "diff.go"))
+    elif kind == "kq":
+        # the REAL kqueue backend compiled on Linux against stand-ins: verbatim copies with only the
+        # build-tag line and three import paths rewritten
+        import re
+        t = os.path.join(verif, "kqsim")
+        for sub in ("unix", "intern", "fsn"):
+            os.makedirs(os.path.join(sd, sub), exist_ok=True)
+        shutil.copy(os.path.join(t, "go.mod"), os.path.join(sd, "go.mod"))
+        shutil.copy(os.path.join(t, "main.go.txt"), os.path.join(sd, "main.go"))
+        shutil.copy(os.path.join(t, "unix", "unix.go.txt"), os.path.join(sd, "unix", "unix.go"))
+        shutil.copy(os.path.join(t, "intern", "intern.go.txt"), os.path.join(sd, "intern", "intern.go"))
+        shutil.copy(os.path.join(t, "fsn", "hooks.go.txt"), os.path.join(sd, "fsn", "hooks.go"))
+        for f in ("backend_kqueue.go", "fsnotify.go", "shared.go", "system_bsd.go"):
+            src = open(os.path.join(repo, f)).read()
+            src = re.sub(r"^//go:build [^\n]*\n", "//go:build linux\n", src, count=1)
+            src = src.replace('"golang.org/x/sys/unix"', '"kqscratch/unix"')
+            src = src.replace('"github.com/fsnotify/fsnotify/internal"', 'internal "kqscratch/intern"')
+            open(os.path.join(sd, "fsn", f), "w").write(src)
     else:
         return 2, "unknown scratch kind " + kind
     rc, out, _ = run(["go", "build", "-o", os.path.join(sd, "scratchbin"), "."], cwd=sd, env=goenv)
